@@ -3,9 +3,11 @@ use crate::fw::*;
 use serde_json::Value;
 
 pub mod c02;
+pub mod c05;
 pub mod c06;
 pub mod c09;
 pub mod c10;
+pub mod c19;
 pub mod e4;
 pub mod mapmodel;
 
@@ -13,9 +15,11 @@ pub fn run(id: &str, tier: Tier) -> i32 {
     match id {
         "C01" | "C03" | "C04" => mapmodel::run(id, tier),
         "C02" => c02::run(tier),
+        "C05" => c05::run(tier),
         "C06" => c06::run(tier),
         "C09" => c09::run(tier),
         "C10" => c10::run(tier),
+        "C19" => c19::run(tier),
         "C11" => e4::run_c11(tier),
         "C12" => e4::run_c12(tier),
         _ => {
@@ -29,9 +33,11 @@ pub fn recheck(id: &str, case: &Value) -> Vec<String> {
     match id {
         "C01" | "C03" | "C04" => mapmodel::recheck(id, case),
         "C02" => c02::recheck(case),
+        "C05" => c05::recheck(case),
         "C06" => c06::recheck(case),
         "C09" => c09::recheck(case),
         "C10" => c10::recheck(case),
+        "C19" => c19::recheck(case),
         "C11" => e4::recheck_c11(case),
         "C12" => e4::recheck_c12(case),
         _ => vec![],
